@@ -31,6 +31,7 @@ func c16r1(c *Check) {
 	cw := c.P.Func("destination", "*Conn", "Write")
 	nW := "(*" + modPath + "/destination.Writer).Write"
 	cfg := &PathCfg{
+		Inline: inlineConnMethods,
 		Classify: func(in ssa.Instruction) []string {
 			if isCallNamed(in, nW) {
 				return []string{"write"}
@@ -277,7 +278,17 @@ func c16r2(c *Check) {
 	}
 	check("Interval", okInt, "SecondsPerPoint of the first retention of the matched schema", "the record's Interval is not taken from the first retention of the schema that matched")
 	// lookup string: Sprintf("%s;%s", name, strings.Join(tags, ";")) built AFTER sort.Strings(tags)
-	okLookup := match != nil && sprintf != nil && match.Call.Args[1] == ssa.Value(sprintf) && sortCall != nil && instrDominates(sortCall, sprintf)
+	// (Sprintf("%s;%s", name, Join) or name + ";" + Join: any concatenation that contains the Join of the sorted slice)
+	_ = sprintf
+	var join *ssa.Call
+	allInstrs(pm, func(in ssa.Instruction) {
+		if call, ok := in.(*ssa.Call); ok && calleeName(call.Common()) == "strings.Join" && sortCall != nil && call.Call.Args[0] == sortCall.Call.Args[0] {
+			if sep, _ := constString(call.Call.Args[1]); sep == ";" {
+				join = call
+			}
+		}
+	})
+	okLookup := match != nil && join != nil && stringBuiltFrom(match.Call.Args[1], join, 0) && instrDominates(sortCall, join)
 	c.Judge(okLookup, "route.parseMetric matches schemas on name;sorted-tags", c.AtFn(pm), "sort.Strings(tags) precedes the construction of the lookup string", "the storage-schemas rule is selected on the tags in the order the sender wrote them (the lookup string is built before the tags are sorted): the Interval depends on tag order instead of Graphite's canonical form")
 	// bit sizes
 	for _, x := range []struct {
@@ -401,4 +412,45 @@ func c16r3(c *Check) {
 		}
 	})
 	c.Judge(okLess, "persister.WhisperSchemas.Less orders by descending priority", c.AtFn(less), "s[i].Priority >= s[j].Priority", "Less does not put higher priorities (and earlier file positions) first")
+}
+
+// stringBuiltFrom: the string v is a concatenation (+, fmt.Sprintf) that contains part.
+func stringBuiltFrom(v ssa.Value, part ssa.Value, depth int) bool {
+	if v == part {
+		return true
+	}
+	if depth > 8 {
+		return false
+	}
+	switch x := v.(type) {
+	case *ssa.BinOp:
+		return x.Op == token.ADD && (stringBuiltFrom(x.X, part, depth+1) || stringBuiltFrom(x.Y, part, depth+1))
+	case *ssa.MakeInterface:
+		return stringBuiltFrom(x.X, part, depth+1)
+	case *ssa.ChangeType:
+		return stringBuiltFrom(x.X, part, depth+1)
+	case *ssa.Phi:
+		for _, e := range x.Edges {
+			if !stringBuiltFrom(e, part, depth+1) {
+				return false
+			}
+		}
+		return len(x.Edges) > 0
+	case *ssa.Call:
+		if calleeName(x.Common()) == "fmt.Sprintf" && len(x.Call.Args) == 2 {
+			if elems, ok := variadicElems(x.Call.Args[1]); ok {
+				for _, e := range elems {
+					if stringBuiltFrom(e, part, depth+1) {
+						return true
+					}
+				}
+			}
+		}
+	}
+	return false
+}
+
+// inlineConnMethods: helpers of destination.Conn (e.g. an extracted encode step) are expanded in place.
+func inlineConnMethods(g *ssa.Function) bool {
+	return g.Signature.Recv() != nil && strings.HasSuffix(g.Signature.Recv().Type().String(), "destination.Conn")
 }
